@@ -6,6 +6,8 @@
 // Bound: page size 1024; per slot: every single-bit flip in the first 112 bytes of the page (page header + header
 // record), every byte of that range zeroed / inverted, all 256 page-type values, the whole page zeroed, the record
 // zeroed.  The result must be the state of the intact header (or the newest state when the damage does not invalidate the slot).
+// Second oracle (C10 across close / reopen): files whose persisted free list spans 1, 2 and several pages are reopened
+// and the in-memory free set must be exactly the persisted list; the next commit must pass DB::check().
 // Finding nothing proves nothing.
 #[cfg(test)]
 mod verif_cex_header {
@@ -95,6 +97,50 @@ mod verif_cex_header {
                         }
                     }
                 }
+            }
+        }
+    }
+
+    #[test]
+    fn cex_reopen_loads_whole_free_list() {
+        use crate::page::Page;
+        let dir = std::env::temp_dir();
+        for &(nkeys, vlen) in &[(0u32, 0usize), (30, 700), (200, 700), (700, 700), (300, 3000)] {
+            let p = dir.join(format!("jammdb-cex-reopen-{}-{}-{}.db", nkeys, vlen, std::process::id()));
+            let _ = std::fs::remove_file(&p);
+            {
+                let db = OpenOptions::new().pagesize(PS as u64).open(&p).unwrap();
+                let tx = db.tx(true).unwrap();
+                { let b = tx.get_or_create_bucket("b").unwrap(); for i in 0..nkeys { b.put(format!("key-{:05}", i), vec![i as u8; vlen]).unwrap(); } }
+                tx.commit().unwrap();
+                let tx = db.tx(true).unwrap();
+                { let b = tx.get_bucket("b").unwrap(); for i in 0..nkeys { b.delete(format!("key-{:05}", i)).unwrap(); } }
+                tx.commit().unwrap();
+                commit_n(&db, 1);
+                commit_n(&db, 2);
+            }
+            let ctx = format!("file built with page size 1024 by: put {} keys with {}-byte values, commit, delete them all, commit, two small commits, close", nkeys, vlen);
+            let r = std::panic::catch_unwind(|| {
+                let db = OpenOptions::new().pagesize(PS as u64).open(&p).map_err(|e| format!("reopen fails: {:?}", e))?;
+                let persisted: Vec<u64> = {
+                    let meta = db.inner.meta().map_err(|e| format!("{:?}", e))?;
+                    let data = db.inner.data.lock().unwrap();
+                    Page::from_buf(&data, meta.freelist_page, PS as u64).freelist().to_vec()
+                };
+                let loaded = db.inner.freelist.lock().unwrap().pages();
+                if loaded != persisted {
+                    return Err(format!("the free-list page lists {} free pages, after reopening the database knows {} of them (first forgotten: {:?})",
+                        persisted.len(), loaded.len(), persisted.iter().find(|x| !loaded.contains(x))));
+                }
+                commit_n(&db, 3);
+                db.check().map_err(|e| format!("check() fails after the first commit that follows the reopen: {:?}", e))?;
+                Ok::<_, String>(())
+            });
+            let _ = std::fs::remove_file(&p);
+            match r {
+                Err(_) => { println!("CEX DBInner::open (C10): {}: reopening or the next commit panics", ctx); panic!("c10"); }
+                Ok(Err(e)) => { println!("CEX DBInner::open (C10): {}: {}", ctx, e); panic!("c10"); }
+                Ok(Ok(())) => {}
             }
         }
     }
